@@ -10,6 +10,7 @@ import (
 	"os"
 	"path/filepath"
 	"runtime/debug"
+	"strings"
 	"sync/atomic"
 
 	"github.com/sarchlab/akita/v4/sim"
@@ -112,7 +113,45 @@ type CrashError struct {
 	Stack string
 }
 
-func (e *CrashError) Error() string { return fmt.Sprintf("simulator panic: %v", e.Value) }
+func (e *CrashError) Error() string {
+	return fmt.Sprintf("simulator panic: %v%s", e.Value, e.where())
+}
+
+// where names the innermost frames of the panic that lie in the simulator or in akita.
+func (e *CrashError) where() string {
+	lines := strings.Split(e.Stack, "\n")
+	var frames []string
+	seenPanic := false
+	for i := 0; i+1 < len(lines); i++ {
+		l := lines[i]
+		if strings.HasPrefix(l, "panic(") {
+			seenPanic = true
+			continue
+		}
+		if !seenPanic || !strings.Contains(l, "(") || strings.HasPrefix(l, "\t") {
+			continue
+		}
+		loc := strings.TrimSpace(lines[i+1])
+		if j := strings.LastIndex(loc, " +0x"); j > 0 {
+			loc = loc[:j]
+		}
+		if k := strings.Index(loc, "/amd/"); k >= 0 {
+			loc = loc[k+1:]
+		} else if k := strings.Index(loc, "akita/v4@"); k >= 0 {
+			loc = loc[k:]
+		} else {
+			continue
+		}
+		frames = append(frames, loc)
+		if len(frames) == 4 {
+			break
+		}
+	}
+	if len(frames) == 0 {
+		return ""
+	}
+	return " (at " + strings.Join(frames, " <- ") + ")"
+}
 
 // Run drives the engine on the calling goroutine until it has no event left,
 // exactly as the driver's own engine goroutine would (tick the driver, run the
